@@ -124,13 +124,20 @@ PutOn(S, p, t) ==
        [] Kind[p] = "filter" -> IF IsTerm(t) \/ t.tag \in Admit[p] THEN BasePut(S0, p, t) ELSE S0
        [] Kind[p] = "inter"  -> IF IsTerm(t) THEN BasePut(S0, p, t) ELSE RuleLoop(S0, p, t, 1, FALSE)
 
-\* the replay loop of add_inter_port over a copy of the non-termination tokens
+\* the replay loop of add_inter_port over a copy of the non-termination tokens.  A self-targeting rule does not
+\* hand a replayed token to the port again (it is already on the port): only the RECOVERED termination of a
+\* TERMINATE rule is put (`if port is self:` branch of add_inter_port); any other target gets _execute_boundary_action
+ExecReplay(S, p, i, t) ==
+  LET r == S.rules[p][i]
+  IN IF r.target # p THEN Exec(S, p, i, t)
+     ELSE IF r.term THEN BasePut([S EXCEPT !.emitted[p][i] = @ \o <<RTok>>], p, RTok)
+     ELSE S
 RECURSIVE Replay(_, _, _, _)
 Replay(S, p, i, toks) ==
   IF toks = <<>> THEN S
   ELSE LET t == Head(toks)
            S1 == [S EXCEPT !.rules[p][i].tags = RemoveFirst(@, t.tag)]
-           S2 == IF S1.rules[p][i].tags = <<>> THEN Exec(S1, p, i, t) ELSE S1
+           S2 == IF S1.rules[p][i].tags = <<>> THEN ExecReplay(S1, p, i, t) ELSE S1
        IN Replay(S2, p, i, Tail(toks))
 
 Work == [tl |-> tl, q |-> q, pd |-> pd, rules |-> rules, arr |-> arr, hist |-> hist, emitted |-> emitted]
@@ -259,14 +266,20 @@ Seen(p, i, k) == rule0[p][i].seen0 \o ArrBetween(p, RuleEv(p, i), k)   \* tokens
 FiresAt(p, i, k) == CompleteBy(rule0[p][i].tags, TagsOf(Seen(p, i, k)))
 \* what a rule must have sent after having seen `all`: for every token by which its tag multiset is complete,
 \* the token (PROPAGATE) and a RECOVERED termination right after (TERMINATE); nothing for the others
-Owed(r, all) ==
+\* the first n0 tokens of `all` were already on the port when a self-targeting rule was added (replay of
+\* add_inter_port): they stay where they are and are not handed to the port a second time, only the termination is owed
+OwedFrom(r, all, n0) ==
   LET F[j \in 0..Len(all)] ==
         IF j = 0 THEN <<>>
-        ELSE F[j - 1] \o (IF CompleteBy(r.tags, TagsOf(SubSeq(all, 1, j))) THEN Contribution(r, all[j]) ELSE <<>>)
+        ELSE F[j - 1] \o (IF CompleteBy(r.tags, TagsOf(SubSeq(all, 1, j)))
+                            THEN (IF j <= n0 THEN (IF r.term THEN <<RTok>> ELSE <<>>) ELSE Contribution(r, all[j]))
+                            ELSE <<>>)
   IN F[Len(all)]
+Owed(r, all) == OwedFrom(r, all, 0)
+OnPortAtAdd(p, i) == IF rule0[p][i].target = p THEN Len(rule0[p][i].seen0) ELSE 0
 RuleFiresExactlyWhenComplete ==
   \A p \in InterPorts : \A i \in 1..Len(rule0[p]) :
-     emitted[p][i] = Owed(rule0[p][i], Seen(p, i, Len(hist[p])))
+     emitted[p][i] = OwedFrom(rule0[p][i], Seen(p, i, Len(hist[p])), OnPortAtAdd(p, i))
 
 IsSubseq(s, t) ==       \* s is a (not necessarily contiguous) subsequence of t
   LET F[a \in 0..Len(s), b \in 0..Len(t)] ==
@@ -294,7 +307,7 @@ ExpectedTL(p) ==
                      ELSE IF SelfFiring(p, k) = {} THEN Append(F[k - 1], e.t)
                      ELSE F[k - 1] \o ConcatRules(p, 1, SelfFiring(p, k), e.t)
                 ELSE IF rule0[p][e.i].target = p
-                     THEN F[k - 1] \o Owed(rule0[p][e.i], rule0[p][e.i].seen0)
+                     THEN F[k - 1] \o OwedFrom(rule0[p][e.i], rule0[p][e.i].seen0, Len(rule0[p][e.i].seen0))
                      ELSE F[k - 1]
   IN F[Len(hist[p])]
 InterHoldsExactlyWhatRulesAdmit == \A p \in InterPorts : tl[p] = ExpectedTL(p)
